@@ -83,6 +83,14 @@ CHECKS = {
          'explicit-state search (BFS with state merging) over operation histories of the implementation, lock-step reference model',
          'DESIGN.md section 4 C14'),
 
+ 'C17': ('model_checking',
+         'Explicit-state search over chains of <= 3 (quick) / 4 (thorough) sub_context() calls over 30 single- and two-field changes (math mode x delimiter, group / inline / display delimiter lists, every enable_* switch, '
+         'escape / comment / forbidden characters) from 3 root states, states merged on (public fields, cached tables). In every state the derived object is compared with ParsingState(**get_fields()): cached tables equal, '
+         'token sequences of the real LatexTokenReader equal on all words of length <= 2 (3) over a 16-symbol alphabet containing every configured delimiter; the parent is compared with an independently rebuilt parent.',
+         'Trusted: key completeness (a child inherits only fields and cached tables); tokenizer behaviour under arbitrary states is C11\'s subject.',
+         'explicit-state search over sub_context chains on the implementation, differential against freshly built states',
+         'DESIGN.md section 4 C17'),
+
  'C11': ('model_checking',
          'Explicit-state exploration of the real LatexTokenReader: every state (remaining input, configuration) for all words of length '
          '<= 3 (quick) / 4 (thorough) over a 15-symbol alphabet x 6172 configurations (math mode and delimiter, 2^7 enable_* switches, extra group '
